@@ -9,7 +9,17 @@
  *            {00,01,7f,80,81,ff} as decoder input, each copied into a heap
  *            block of exactly its length (mc_exact_copy) with the ByteBuffer's
  *            size and fill mark equal to that length, so that the buffer ends
- *            at every truncation point and ASan observes any read behind it.
+ *            at every truncation point and ASan observes any read behind it;
+ *   scripts  source and sink drivers that answer 0, -EINTR, -EAGAIN or a hard
+ *            error (sinks: or take fewer octets than offered) at every call
+ *            position, on streams of one to three varints through the same
+ *            Source / Sink object;
+ *   reuse    encoders and the buffer decoder on descriptors that are not fresh:
+ *            every (size, used, offset) of small buffers, and histories of up
+ *            to three (thorough: four) operations on one descriptor;
+ *   windows  buffers whose size, offset or size - offset straddle 2^7, 2^8,
+ *            2^15, 2^16, 2^31 and 2^32, as real (lazily mapped) memory that
+ *            ends in front of an inaccessible page.
  *
  * All four type variants (u32, s32, u64, s64) are run on every value / string.
  * Signed values are handled as their two's complement bit pattern of the
@@ -17,6 +27,9 @@
  * (-1 as s32 encodes as ff ff ff ff 0f).
  */
 #include "mc.h"
+
+#include <sys/mman.h>
+#include <unistd.h>
 
 #include <ufw/compat/errno.h>
 
@@ -738,6 +751,829 @@ family_strings(const unsigned char *alpha, unsigned nalpha, size_t minlen, size_
     }
 }
 
+/* ---- scripted drivers: answers other than "here is the octet" ------------------------- */
+
+/* One answer per driver call; calls behind the script are served normally.
+ * '.' serve, Z return 0 ("allowed, strictly, but will cause the system to
+ * retry", endpoints/core.c), I -EINTR, A -EAGAIN, E a hard error (-EIO). */
+enum { A_D, A_I, A_A, A_E, A_Z, A_NKINDS };
+static const char ALET[A_NKINDS + 1] = ".IAEZ";
+#define SCRIPT_MAX 40
+#define CALL_BUDGET 48 /* driver calls per library call; an encoding has at most 10 octets */
+
+static int
+a_code(int a)
+{
+    switch (a) {
+    case A_Z: return 0;
+    case A_I: return -EINTR;
+    case A_A: return -EAGAIN;
+    default: return -EIO;
+    }
+}
+
+struct script {
+    unsigned char a[SCRIPT_MAX];
+    size_t n; /* 0, or a[n-1] != A_D */
+};
+
+static void
+script_text(const struct script *sc, char *out)
+{
+    for (size_t i = 0; i < sc->n; ++i)
+        out[i] = ALET[sc->a[i]];
+    out[sc->n] = 0;
+}
+
+/* Every script with at most `faults` answers other than '.' among the first
+ * `lmax` calls, in a fixed order (the empty script first). */
+typedef void script_fn(const struct script *sc, void *ctx);
+
+static void
+scripts_rec(struct script *sc, size_t from, size_t lmax, unsigned faults, script_fn *fn, void *ctx)
+{
+    fn(sc, ctx);
+    if (faults == 0)
+        return;
+    const size_t n0 = sc->n;
+    for (size_t p = from; p < lmax && p < SCRIPT_MAX; ++p) {
+        for (size_t i = n0; i < p; ++i)
+            sc->a[i] = A_D;
+        for (int k = A_D + 1; k < A_NKINDS; ++k) {
+            sc->a[p] = (unsigned char)k;
+            sc->n = p + 1;
+            scripts_rec(sc, p + 1, lmax, faults - 1, fn, ctx);
+        }
+    }
+    sc->n = n0;
+}
+
+static void
+for_scripts(size_t lmax, unsigned faults, script_fn *fn, void *ctx)
+{
+    struct script sc;
+    memset(&sc, 0, sizeof sc);
+    scripts_rec(&sc, 0, lmax, faults, fn, ctx);
+}
+
+static void
+hex_text(const unsigned char *s, size_t n, char *out)
+{
+    out[0] = 0;
+    for (size_t i = 0; i < n; ++i) {
+        out[3 * i] = "0123456789abcdef"[s[i] >> 4];
+        out[3 * i + 1] = "0123456789abcdef"[s[i] & 15];
+        out[3 * i + 2] = i + 1 < n ? ' ' : 0;
+    }
+}
+
+/* ---- scripted source ------------------------------------------------------------------- */
+
+struct ssrc {
+    const unsigned char *p; /* the stream */
+    size_t n, pos;
+    const struct script *sc;
+    size_t calls;  /* driver calls so far (index into the script) */
+    size_t call0;  /* value of calls when the current library call started */
+    size_t given;  /* answers other than "served"/-ENODATA given during the current library call */
+    int first;     /* first such answer of the case (A_D: none) */
+    unsigned char poison; /* what a call that delivers nothing leaves in the caller's octet */
+    bool budget;   /* the library kept calling: see C14/hang */
+};
+
+static int
+ssrc_step(struct ssrc *s, unsigned char *dst, size_t room)
+{
+    const size_t c = s->calls++;
+    if (s->calls - s->call0 > CALL_BUDGET) {
+        s->budget = true;
+        return -EIO;
+    }
+    const int a = c < s->sc->n ? s->sc->a[c] : A_D;
+    if (a != A_D) {
+        s->given++;
+        if (s->first == A_D)
+            s->first = a;
+        if (room)
+            *dst = s->poison; /* nothing was delivered: the octet's content means nothing */
+        return a_code(a);
+    }
+    if (s->pos >= s->n)
+        return -ENODATA;
+    if (room == 0)
+        return 0;
+    *dst = s->p[s->pos++];
+    return 1;
+}
+
+static int
+ssrc_get_octet(void *drv, void *dst)
+{
+    return ssrc_step(drv, dst, 1);
+}
+
+static ssize_t
+ssrc_get_chunk(void *drv, void *dst, size_t n)
+{
+    return ssrc_step(drv, dst, n); /* one octet per call at most: a short read is a legal answer */
+}
+
+static const char *const SRC_OUT[A_NKINDS] = { "srcscript-undisturbed", "srcscript-eintr", "srcscript-eagain",
+                                               "srcscript-hard", "srcscript-zero" };
+
+struct srcctx {
+    int t;
+    int chunk;            /* 0: octet source, 1: chunk source */
+    unsigned char poison;
+    const unsigned char *stream;
+    size_t n;
+    unsigned k;           /* varints to decode from the stream */
+};
+
+static void
+srcscript_case(const struct script *sc, void *vctx)
+{
+    const struct srcctx *c = vctx;
+    if (!mc_would_run()) {
+        mc_skip_case();
+        return;
+    }
+    char hex[3 * 32 + 1], st[SCRIPT_MAX + 1];
+    hex_text(c->stream, c->n, hex);
+    script_text(sc, st);
+    if (!mc_case("srcscript %s %s-source poison=%02x decodes=%u stream=[%s] answers=\"%s\" then served", TN[c->t],
+                 c->chunk ? "chunk" : "octet", c->poison, c->k, hex, st))
+        return;
+    const int t = c->t;
+    struct ssrc s;
+    memset(&s, 0, sizeof s);
+    s.p = c->stream;
+    s.n = c->n;
+    s.sc = sc;
+    s.first = A_D;
+    s.poison = c->poison;
+    Source src;
+    if (c->chunk)
+        chunk_source_init(&src, ssrc_get_chunk, &s);
+    else
+        octet_source_init(&src, ssrc_get_octet, &s);
+    for (unsigned j = 0; j < c->k && s.pos < s.n; ++j) {
+        const size_t pos0 = s.pos, restn = s.n - pos0;
+        const struct refdec r = ref_dec(s.p + pos0, restn, t);
+        /* the buffer decoder on the same octets, in an exact-size block */
+        unsigned char *blk = mc_exact_copy(s.p + pos0, restn);
+        struct dobs o[3];
+        ByteBuffer b;
+        if (byte_buffer_set(&b, blk, restn, restn, 0) < 0)
+            mc_broken("byte_buffer_set refused");
+        o[0].rc = lib_decode(t, &b, &o[0].bits);
+        o[0].consumed = b.offset;
+        free(blk);
+        s.call0 = s.calls;
+        s.given = 0;
+        o[1].rc = lib_from_source(t, &src, &o[1].bits);
+        o[1].consumed = s.pos - pos0;
+        o[2] = o[1];
+        mc_trans(2);
+        mc_log("decode %u at stream position %zu: reference %s count=%zu; driver calls %zu, disturbed %zu times", j, pos0,
+               r.v == V_OK ? "ok" : r.v == V_ILLEGAL ? "illegal" : "cut off", r.count, s.calls - s.call0, s.given);
+        if (s.budget) {
+            mc_fail("C14/hang", "%s: source decoder made more than %d driver calls for one varint", TN[t], CALL_BUDGET);
+            break;
+        }
+        if (s.given == 0) {
+            if (!judge_string(t, &r, o) || o[1].rc < 0)
+                break;
+            continue;
+        }
+        mc_log("  %s source: rc=%d value=0x%llx consumed=%zu; buffer decoder on the same octets: rc=%d value=0x%llx",
+               TN[t], o[1].rc, o[1].rc >= 0 ? (unsigned long long)o[1].bits : 0ull, o[1].consumed, o[0].rc,
+               o[0].rc >= 0 ? (unsigned long long)o[0].bits : 0ull);
+        if (o[1].rc < 0)
+            break; /* reporting the driver's trouble is fine; the stream's state is open afterwards */
+        /* success: it has to be the value of the octets that were delivered, and exactly those */
+        if (r.v != V_OK || (size_t)o[1].rc != r.count || o[1].consumed != r.count) {
+            mc_fail("C14/source-retry-exact",
+                    "%s: source decoder reports success rc=%d value=0x%llx having been delivered %zu octets; those octets %s",
+                    TN[t], o[1].rc, (unsigned long long)o[1].bits, o[1].consumed,
+                    r.v == V_ILLEGAL ? "have no terminator within the maximum length"
+                    : r.v == V_TRUNC ? "end before a terminator"
+                    : o[1].consumed == r.count ? "are a varint of that many octets, not of rc octets"
+                                               : "are not one complete varint");
+            break;
+        }
+        if (o[0].rc >= 0 && o[1].bits != o[0].bits) {
+            mc_fail("C14/source-retry-exact", "%s: source decoder returned 0x%llx, buffer decoder 0x%llx for the same octets",
+                    TN[t], (unsigned long long)o[1].bits, (unsigned long long)o[0].bits);
+            break;
+        }
+        if (r.canonical && o[1].bits != r.value) {
+            mc_fail("C14/source-retry-exact", "%s: source decoder returned 0x%llx for the encoding of 0x%llx", TN[t],
+                    (unsigned long long)o[1].bits, (unsigned long long)r.value);
+            break;
+        }
+    }
+    mc_end(s.first != A_D, SRC_OUT[s.first]);
+}
+
+/* ---- scripted sink --------------------------------------------------------------------- */
+
+struct ssink {
+    unsigned char got[64];
+    size_t n;
+    const struct script *sc;
+    size_t most;      /* chunk flavour: takes at most this many octets per call */
+    size_t calls, call0;
+    size_t given;     /* disturbances (script answers, short takes) during the current library call */
+    int first;        /* first script answer given in the case */
+    bool shorted;     /* took fewer octets than offered at least once */
+    bool budget;
+};
+
+static ssize_t
+ssink_step(struct ssink *s, const unsigned char *p, size_t n)
+{
+    const size_t c = s->calls++;
+    if (s->calls - s->call0 > CALL_BUDGET) {
+        s->budget = true;
+        return -EIO;
+    }
+    const int a = c < s->sc->n ? s->sc->a[c] : A_D;
+    if (a != A_D) {
+        s->given++;
+        if (s->first == A_D)
+            s->first = a;
+        return a_code(a);
+    }
+    size_t m = n;
+    if (m > s->most) {
+        m = s->most;
+        s->given++;
+        s->shorted = true;
+    }
+    for (size_t i = 0; i < m; ++i) {
+        if (s->n < sizeof s->got)
+            s->got[s->n] = p[i];
+        s->n++;
+    }
+    return (ssize_t)m;
+}
+
+static int
+ssink_put_octet(void *drv, unsigned char c)
+{
+    return (int)ssink_step(drv, &c, 1);
+}
+
+static ssize_t
+ssink_put_chunk(void *drv, const void *p, size_t n)
+{
+    return ssink_step(drv, p, n);
+}
+
+struct sinkctx {
+    int t;
+    size_t most; /* 0: octet sink; otherwise chunk sink taking at most this many per call */
+    const uint64_t *v;
+    unsigned k;
+};
+
+static void
+sinkscript_case(const struct script *sc, void *vctx)
+{
+    const struct sinkctx *c = vctx;
+    if (!mc_would_run()) {
+        mc_skip_case();
+        return;
+    }
+    char st[SCRIPT_MAX + 1], kind[40];
+    script_text(sc, st);
+    if (c->most == 0)
+        snprintf(kind, sizeof kind, "octet-sink");
+    else if (c->most >= 64)
+        snprintf(kind, sizeof kind, "chunk-sink");
+    else
+        snprintf(kind, sizeof kind, "chunk-sink(at most %zu per call)", c->most);
+    if (!mc_case("sinkscript %s %s values=[0x%llx 0x%llx 0x%llx] first %u answers=\"%s\" then served", TN[c->t], kind,
+                 (unsigned long long)c->v[0], (unsigned long long)(c->k > 1 ? c->v[1] : 0),
+                 (unsigned long long)(c->k > 2 ? c->v[2] : 0), c->k, st))
+        return;
+    const int t = c->t;
+    struct ssink s;
+    memset(&s, 0, sizeof s);
+    s.sc = sc;
+    s.most = c->most ? c->most : 1;
+    s.first = A_D;
+    Sink sink;
+    if (c->most)
+        chunk_sink_init(&sink, ssink_put_chunk, &s);
+    else
+        octet_sink_init(&sink, ssink_put_octet, &s);
+    for (unsigned j = 0; j < c->k; ++j) {
+        unsigned char want[10];
+        const size_t len = ref_enc(c->v[j], want);
+        const size_t n0 = s.n;
+        s.call0 = s.calls;
+        s.given = 0;
+        const int rc = lib_to_sink(t, &sink, c->v[j]);
+        mc_trans(1);
+        const size_t got = s.n - n0;
+        mc_log("to_sink %u 0x%llx: rc=%d, driver calls %zu, disturbed %zu times, %zu octets taken", j,
+               (unsigned long long)c->v[j], rc, s.calls - s.call0, s.given, got);
+        mc_log_hex("  taken", s.got + (n0 < sizeof s.got ? n0 : sizeof s.got),
+                   n0 + got <= sizeof s.got ? got : 0);
+        mc_log_hex("  minimal form", want, len);
+        if (s.budget) {
+            mc_fail("C14/hang", "%s: sink encoder made more than %d driver calls for one varint", TN[t], CALL_BUDGET);
+            break;
+        }
+        if (rc < 0) {
+            if (s.given == 0)
+                mc_fail("C14/encode-minimal-sink", "%s: encoding 0x%llx to a sink that takes everything: rc=%d", TN[t],
+                        (unsigned long long)c->v[j], rc);
+            break; /* an honest error report after a disturbance is fine; the sink's content is open then */
+        }
+        if (got != len || n0 + got > sizeof s.got || memcmp(s.got + n0, want, len) != 0) {
+            mc_fail("C14/encode-minimal-sink",
+                    "%s: encoding 0x%llx to a sink reports success (rc=%d) but the sink took %zu octets that %s the minimal "
+                    "form of %zu octets (driver was disturbed %zu times)",
+                    TN[t], (unsigned long long)c->v[j], rc, got, got == len ? "differ from" : "are not", len, s.given);
+            break;
+        }
+    }
+    const char *outcome = s.first == A_Z ? "sinkscript-zero"
+        : s.first == A_I                 ? "sinkscript-eintr"
+        : s.first == A_A                 ? "sinkscript-eagain"
+        : s.first == A_E                 ? "sinkscript-hard"
+        : s.shorted                      ? "sinkscript-short"
+                                         : "sinkscript-undisturbed";
+    mc_end(s.first != A_D || s.shorted, outcome);
+}
+
+/* ---- the script families ---------------------------------------------------------------- */
+
+struct bstr {
+    unsigned char s[11];
+    size_t n;
+};
+
+#define FF5 0xff, 0xff, 0xff, 0xff, 0xff
+#define C5 0x80, 0x80, 0x80, 0x80, 0x80
+/* decoder inputs of the script family: encodings of every length class, an
+ * overlong form, a form beyond the width, no terminator, cut off */
+static const struct bstr SSTR32[] = {
+    { { 0x00 }, 1 }, { { 0x7f }, 1 }, { { 0x80, 0x01 }, 2 }, { { 0xd2, 0x09 }, 2 }, { { 0xff, 0xff, 0x03 }, 3 },
+    { { 0xff, 0xff, 0xff, 0x7f }, 4 }, { { 0xff, 0xff, 0xff, 0xff, 0x0f }, 5 }, { { 0x80, 0x80, 0x80, 0x80, 0x08 }, 5 },
+    { { 0x80, 0x00 }, 2 }, { { 0xff, 0xff, 0xff, 0xff, 0x7f }, 5 }, { { C5 }, 5 }, { { 0x81 }, 1 }, { { 0xff, 0x80 }, 2 },
+};
+static const struct bstr SSTR64[] = {
+    { { 0x00 }, 1 }, { { 0x7f }, 1 }, { { 0x80, 0x01 }, 2 }, { { 0xd2, 0x09 }, 2 }, { { 0xff, 0xff, 0x03 }, 3 },
+    { { FF5, 0x0f }, 6 }, { { FF5, 0xff, 0xff, 0xff, 0x7f }, 9 }, { { FF5, 0xff, 0xff, 0xff, 0xff, 0x01 }, 10 },
+    { { C5, 0x80, 0x80, 0x80, 0x80, 0x01 }, 10 }, { { 0x80, 0x00 }, 2 }, { { FF5, 0xff, 0xff, 0xff, 0xff, 0x7f }, 10 },
+    { { C5, C5 }, 10 }, { { 0x81 }, 1 }, { { 0xff, 0x80 }, 2 },
+};
+/* the parts streams of several varints are made of */
+static const struct bstr PART32[3] = { { { 0x01 }, 1 }, { { 0xd2, 0x09 }, 2 }, { { 0xff, 0xff, 0xff, 0xff, 0x0f }, 5 } };
+static const struct bstr PART64[3] = { { { 0x01 }, 1 }, { { 0xd2, 0x09 }, 2 },
+                                       { { FF5, 0xff, 0xff, 0xff, 0xff, 0x01 }, 10 } };
+static const uint64_t PARTV32[3] = { 1, 1234, 0xffffffffull };
+static const uint64_t PARTV64[3] = { 1, 1234, ~0ull };
+
+static const unsigned char POISON[2] = { 0x00, 0xd5 };
+
+static void
+family_srcscripts(void)
+{
+    const unsigned f1 = mc_thorough() ? 3 : 2; /* disturbances per single varint */
+    const unsigned fk = mc_thorough() ? 2 : 1; /* per stream of two or three */
+    for (int t = 0; t < NTYPES; ++t) {
+        const bool w32 = t < T_U64;
+        const struct bstr *str = w32 ? SSTR32 : SSTR64;
+        const size_t nstr = w32 ? sizeof SSTR32 / sizeof *SSTR32 : sizeof SSTR64 / sizeof *SSTR64;
+        const struct bstr *part = w32 ? PART32 : PART64;
+        for (int chunk = 0; chunk < 2; ++chunk)
+            for (unsigned pz = 0; pz < 2; ++pz) {
+                struct srcctx c = { t, chunk, POISON[pz], NULL, 0, 1 };
+                for (size_t i = 0; i < nstr; ++i) {
+                    c.stream = str[i].s;
+                    c.n = str[i].n;
+                    c.k = 1;
+                    /* the decoder asks for at most min(n + 1, maximum) octets; a
+                     * disturbance behind that many calls plus the earlier ones is never seen */
+                    for_scripts(str[i].n + f1, f1, srcscript_case, &c);
+                }
+                for (unsigned k = 2; k <= 3; ++k) {
+                    unsigned total = 1;
+                    for (unsigned j = 0; j < k; ++j)
+                        total *= 3;
+                    for (unsigned comb = 0; comb < total; ++comb) {
+                        unsigned char stream[32];
+                        size_t n = 0;
+                        unsigned r = comb;
+                        for (unsigned j = 0; j < k; ++j) {
+                            memcpy(stream + n, part[r % 3].s, part[r % 3].n);
+                            n += part[r % 3].n;
+                            r /= 3;
+                        }
+                        c.stream = stream;
+                        c.n = n;
+                        c.k = k;
+                        for_scripts(n + fk, fk, srcscript_case, &c);
+                    }
+                }
+            }
+    }
+}
+
+static void
+family_sinkscripts(void)
+{
+    static const uint64_t V32[] = { 0, 0x7f, 0x80, 1234, 0x1ffff, 0x0fffffff, 0x80000000ull, 0xffffffffull };
+    static const uint64_t V64[] = { 0, 0x7f, 0x80, 1234, 0x1ffff, 0x123456789abcull, 0x7fffffffffffffffull,
+                                    0x8000000000000000ull, ~0ull };
+    static const size_t MOST[5] = { 0, 64, 1, 2, 3 };
+    const unsigned f1 = mc_thorough() ? 3 : 2;
+    const unsigned fk = mc_thorough() ? 2 : 1;
+    for (int t = 0; t < NTYPES; ++t) {
+        const bool w32 = t < T_U64;
+        const uint64_t *vals = w32 ? V32 : V64;
+        const size_t nvals = w32 ? sizeof V32 / sizeof *V32 : sizeof V64 / sizeof *V64;
+        const uint64_t *part = w32 ? PARTV32 : PARTV64;
+        for (unsigned m = 0; m < 5; ++m) {
+            struct sinkctx c = { t, MOST[m], NULL, 1 };
+            for (size_t i = 0; i < nvals; ++i) {
+                uint64_t v[3] = { vals[i], 0, 0 };
+                c.v = v;
+                c.k = 1;
+                for_scripts(ref_len(vals[i]) + f1, f1, sinkscript_case, &c);
+            }
+            for (unsigned k = 2; k <= 3; ++k) {
+                unsigned total = 1;
+                for (unsigned j = 0; j < k; ++j)
+                    total *= 3;
+                for (unsigned comb = 0; comb < total; ++comb) {
+                    uint64_t v[3] = { 0, 0, 0 };
+                    size_t n = 0;
+                    unsigned r = comb;
+                    for (unsigned j = 0; j < k; ++j) {
+                        v[j] = part[r % 3];
+                        n += ref_len(v[j]);
+                        r /= 3;
+                    }
+                    c.v = v;
+                    c.k = k;
+                    for_scripts(n + fk, fk, sinkscript_case, &c);
+                }
+            }
+        }
+    }
+}
+
+/* ---- descriptors that are not fresh ------------------------------------------------------- */
+
+/* What "encoding produces the form" means on a ByteBuffer whose read cursor and
+ * fill mark are not both zero is not spelled out by the statement.  Two readings
+ * are accepted, whichever the implementation follows, call by call:
+ *   (at-cursor) the form is written at the read cursor and the fill mark is set
+ *               to its end, so that the unread part [offset, used) is the form;
+ *   (appended)  the form is appended at the fill mark, which moves behind it.
+ * Both coincide when offset == used (fresh descriptors, "decode what was there,
+ * encode the next").  A form of the right length somewhere, with a fill mark
+ * that delimits something else, is neither.
+ * Returns 1: encoded (at_cursor tells which reading), 0: refused admissibly,
+ * -1: failure recorded. */
+static int
+encode_step(int t, ByteBuffer *b, unsigned char *mem, size_t size, uint64_t bits, bool *at_cursor)
+{
+    unsigned char want[10];
+    const size_t len = ref_enc(bits, want);
+    const size_t maxoct = t_max(t);
+    const size_t o = b->offset, u = b->used;
+    const int erc = lib_encode(t, b, bits);
+    mc_trans(1);
+    mc_log("%s encode 0x%llx on size=%zu used=%zu offset=%zu: rc=%d, afterwards used=%zu offset=%zu", TN[t],
+           (unsigned long long)bits, size, u, o, erc, b->used, b->offset);
+    if (b->data != mem || b->size != size) {
+        mc_fail("C14/encode-minimal-reuse", "%s: encoding 0x%llx changed the descriptor's memory or size", TN[t],
+                (unsigned long long)bits);
+        return -1;
+    }
+    if (erc < 0) {
+        if (size - u >= maxoct) {
+            mc_fail("C14/encode-minimal-reuse",
+                    "%s: encoding 0x%llx refused with %d although %zu octets (the documented maximum is %zu) are free behind "
+                    "the fill mark (size=%zu used=%zu offset=%zu)",
+                    TN[t], (unsigned long long)bits, erc, size - u, maxoct, size, u, o);
+            return -1;
+        }
+        return 0;
+    }
+    const bool a_ok = b->used == o + len && o + len <= size && memcmp(mem + o, want, len) == 0;
+    const bool b_ok = b->used == u + len && u + len <= size && memcmp(mem + u, want, len) == 0;
+    if ((size_t)erc != len || b->offset != o || !(a_ok || b_ok)) {
+        mc_fail("C14/encode-minimal-reuse",
+                "%s: encoding 0x%llx (minimal form: %zu octets) on size=%zu used=%zu offset=%zu: rc=%d used=%zu offset=%zu; "
+                "the fill mark delimits neither the form written at the read cursor nor the form appended at the old fill mark",
+                TN[t], (unsigned long long)bits, len, size, u, o, erc, b->used, b->offset);
+        return -1;
+    }
+    *at_cursor = a_ok;
+    return 1;
+}
+
+/* Decode through the same descriptor when the unread part starts with a
+ * complete canonical encoding (so that the verdict does not depend on whether a
+ * decoder is bounded by the fill mark or by the memory).  1 decoded, 0 not
+ * applicable, -1 failure recorded. */
+static int
+decode_step(int t, ByteBuffer *b, unsigned char *mem, size_t size)
+{
+    const size_t o = b->offset, u = b->used;
+    if (o > u || u > size)
+        return 0;
+    const struct refdec r = ref_dec(mem + o, u - o, t);
+    if (r.v != V_OK || !r.canonical)
+        return 0;
+    uint64_t got;
+    const int drc = lib_decode(t, b, &got);
+    mc_trans(1);
+    mc_log("%s decode on size=%zu used=%zu offset=%zu: rc=%d value=0x%llx, afterwards used=%zu offset=%zu", TN[t], size, u,
+           o, drc, drc >= 0 ? (unsigned long long)got : 0ull, b->used, b->offset);
+    if (drc < 0 || (size_t)drc != r.count || got != r.value || b->offset != o + r.count) {
+        mc_fail("C14/roundtrip-buffer",
+                "%s: the unread part of the descriptor (size=%zu used=%zu offset=%zu) starts with the %zu-octet encoding of "
+                "0x%llx: rc=%d value=0x%llx offset=%zu",
+                TN[t], size, u, o, r.count, (unsigned long long)r.value, drc, drc >= 0 ? (unsigned long long)got : 0ull,
+                b->offset);
+        return -1;
+    }
+    return 1;
+}
+
+static void
+stale_fill(unsigned char *mem, size_t n)
+{
+    /* continuation bits everywhere: stale octets never look like a terminator,
+     * and never like the last octet of a form */
+    for (size_t i = 0; i < n; ++i)
+        mem[i] = (unsigned char)(0x80u | ((i * 37u + 0x25u) & 0x7fu));
+}
+
+static const uint64_t DV32[3] = { 5, 1234, 0xffffffffull };
+static const uint64_t DV64[3] = { 5, 1234, ~0ull };
+
+/* one encode on every (size, used, offset) */
+static void
+family_dirty(void)
+{
+    for (int t = 0; t < NTYPES; ++t) {
+        const size_t maxoct = t_max(t);
+        const size_t sizes[6] = { maxoct - 1, maxoct, maxoct + 1, maxoct + 2, 2 * maxoct, 2 * maxoct + 3 };
+        const uint64_t *dv = t < T_U64 ? DV32 : DV64;
+        for (unsigned si = 0; si < 6; ++si)
+            for (size_t u = 0; u <= sizes[si]; ++u)
+                for (size_t o = 0; o <= u; ++o)
+                    for (unsigned vi = 0; vi < 3; ++vi) {
+                        const size_t size = sizes[si];
+                        if (!mc_case("dirty %s encode 0x%llx on size=%zu used=%zu offset=%zu, then decode", TN[t],
+                                     (unsigned long long)dv[vi], size, u, o))
+                            continue;
+                        unsigned char *mem = mc_exact(size);
+                        stale_fill(mem, size);
+                        ByteBuffer b;
+                        if (byte_buffer_set(&b, mem, size, u, o) < 0)
+                            mc_broken("byte_buffer_set refused size=%zu used=%zu offset=%zu", size, u, o);
+                        bool at_cursor = false;
+                        const int e = encode_step(t, &b, mem, size, dv[vi], &at_cursor);
+                        const char *outcome = e < 0 ? "dirty-failed" : e == 0 ? "dirty-refused"
+                            : o == u                ? "dirty-encoded-at-mark"
+                                                    : "dirty-encoded-below-mark";
+                        if (e == 1 && at_cursor)
+                            (void)decode_step(t, &b, mem, size);
+                        free(mem);
+                        mc_end(u != 0, outcome);
+                    }
+    }
+}
+
+/* histories on one descriptor.  The cursor operations are done by the harness
+ * on the public struct (what byte_buffer_repeat / byte_buffer_reset do, and a
+ * caller that appends by moving the read cursor to the fill mark). */
+enum { H_E1, H_E2, H_EMAX, H_DEC, H_REPEAT, H_SEEKEND, H_RESET, H_NOPS };
+static const char *const HN[H_NOPS] = { "enc1", "enc2", "encmax", "dec", "repeat", "seek-end", "reset" };
+
+static void
+family_histories(void)
+{
+    const unsigned maxlen = mc_thorough() ? 4 : 3;
+    for (int t = 0; t < NTYPES; ++t) {
+        const size_t maxoct = t_max(t);
+        const size_t sizes[3] = { maxoct, 2 * maxoct, 3 * maxoct + 1 };
+        const uint64_t *dv = t < T_U64 ? DV32 : DV64;
+        for (unsigned si = 0; si < 3; ++si)
+            for (unsigned len = 1; len <= maxlen; ++len) {
+                unsigned total = 1;
+                for (unsigned j = 0; j < len; ++j)
+                    total *= H_NOPS;
+                for (unsigned comb = 0; comb < total; ++comb) {
+                    if (!mc_would_run()) {
+                        mc_skip_case();
+                        continue;
+                    }
+                    unsigned ops[4], r = comb;
+                    char text[80];
+                    size_t tl = 0;
+                    for (unsigned j = len; j-- > 0;) {
+                        ops[j] = r % H_NOPS;
+                        r /= H_NOPS;
+                    }
+                    for (unsigned j = 0; j < len; ++j)
+                        tl += (size_t)snprintf(text + tl, sizeof text - tl, "%s%s", j ? " " : "", HN[ops[j]]);
+                    const size_t size = sizes[si];
+                    if (!mc_case("history %s size=%zu fresh: %s", TN[t], size, text))
+                        continue;
+                    unsigned char *mem = mc_exact(size);
+                    stale_fill(mem, size);
+                    ByteBuffer b;
+                    if (byte_buffer_space(&b, mem, size) < 0)
+                        mc_broken("byte_buffer_space refused");
+                    unsigned reuse = 0, encodes = 0;
+                    bool failed = false;
+                    for (unsigned j = 0; j < len && !failed; ++j) {
+                        switch (ops[j]) {
+                        case H_E1:
+                        case H_E2:
+                        case H_EMAX: {
+                            bool at_cursor;
+                            const size_t o = b.offset, u = b.used;
+                            const int e = encode_step(t, &b, mem, size, dv[ops[j] - H_E1], &at_cursor);
+                            if (e < 0)
+                                failed = true;
+                            else if (e == 0 && (b.offset != o || b.used != u))
+                                j = len; /* refused and moved the marks: nothing more to be said about this descriptor */
+                            else if (e == 1) {
+                                encodes++;
+                                if (o != u)
+                                    reuse++;
+                            }
+                            break;
+                        }
+                        case H_DEC:
+                            if (decode_step(t, &b, mem, size) < 0)
+                                failed = true;
+                            break;
+                        case H_REPEAT:
+                            b.offset = 0;
+                            break;
+                        case H_SEEKEND:
+                            b.offset = b.used;
+                            break;
+                        default:
+                            b.offset = b.used = 0;
+                            break;
+                        }
+                    }
+                    free(mem);
+                    mc_end(encodes >= 2, failed ? "history-failed" : reuse ? "history-reencoded-below-mark"
+                               : encodes >= 2                            ? "history-reencoded-at-mark"
+                                                                         : "history-single");
+                }
+            }
+    }
+}
+
+/* ---- large windows -------------------------------------------------------------------------- */
+
+/* A lazily mapped, never reserved region of WIN_MAX octets that ends in front
+ * of an inaccessible page.  A buffer of `size` octets is the last `size` octets
+ * of the region, so its memory really has that size and really ends there; only
+ * the pages a case writes to are ever materialised.  The region is all zero
+ * between cases. */
+#define WIN_MAX ((1ull << 33) + (1ull << 16))
+static unsigned char *win_end;
+
+static void
+window_init(void)
+{
+    const size_t pg = (size_t)sysconf(_SC_PAGESIZE);
+    unsigned char *m = mmap(NULL, WIN_MAX + pg, PROT_READ | PROT_WRITE, MAP_PRIVATE | MAP_ANONYMOUS | MAP_NORESERVE, -1, 0);
+    if (m == MAP_FAILED)
+        mc_broken("cannot map the %llu-octet window region", (unsigned long long)WIN_MAX);
+    if (mprotect(m + WIN_MAX, pg, PROT_NONE) != 0)
+        mc_broken("cannot protect the page behind the window region");
+    win_end = m + WIN_MAX;
+}
+
+static size_t
+boundary_family(uint64_t *out, bool small_too)
+{
+    static const unsigned P[6] = { 7, 8, 15, 16, 31, 32 };
+    size_t n = 0;
+    if (small_too)
+        for (uint64_t r = 1; r <= 11; ++r)
+            out[n++] = r;
+    for (unsigned i = 0; i < 6; ++i) {
+        const uint64_t b = 1ull << P[i];
+        out[n++] = b - 2;
+        out[n++] = b - 1;
+        for (uint64_t k = 0; k <= 11; ++k)
+            out[n++] = b + k;
+    }
+    out[n++] = 3ull << 30;
+    return n;
+}
+
+static const struct bstr WSTR[] = {
+    { { 0x00 }, 1 }, { { 0x7f }, 1 }, { { 0xd2, 0x09 }, 2 }, { { 0xff, 0xff, 0x03 }, 3 },
+    { { 0xff, 0xff, 0xff, 0xff, 0x0f }, 5 }, { { C5, 0x01 }, 6 }, { { FF5, 0xff, 0xff, 0xff, 0x7f }, 9 },
+    { { FF5, 0xff, 0xff, 0xff, 0xff, 0x01 }, 10 }, { { C5, C5, 0x01 }, 11 }, { { 0x80, 0x80, 0x00 }, 3 },
+};
+static const uint64_t WOFF[] = { 0, 1, 3, 127, 128, 255, 256, 65535, 65536, (1ull << 31) - 1, 1ull << 31, (1ull << 31) + 1,
+                                 (1ull << 32) - 1, 1ull << 32, (1ull << 32) + 1, (1ull << 32) + 5 };
+
+static void
+family_windows(void)
+{
+    uint64_t rest[128];
+    const size_t nrest = boundary_family(rest, true);
+    const size_t noff = sizeof WOFF / sizeof *WOFF;
+    /* decoders: a string at `offset`, `rest` octets of memory from there on */
+    for (size_t si = 0; si < sizeof WSTR / sizeof *WSTR; ++si)
+        for (size_t oi = 0; oi < noff; ++oi)
+            for (size_t ri = 0; ri < nrest; ++ri) {
+                if (!mc_would_run()) {
+                    mc_skip_case();
+                    continue;
+                }
+                const uint64_t off = WOFF[oi], r = rest[ri], size = off + r;
+                char hex[3 * 12 + 1];
+                hex_text(WSTR[si].s, WSTR[si].n, hex);
+                if (!mc_case("window size=%llu offset=%llu (%llu octets follow the offset) s=[%s] then zeros",
+                             (unsigned long long)size, (unsigned long long)off, (unsigned long long)r, hex))
+                    continue;
+                unsigned char *data = win_end - size;
+                /* what a decoder can see: the string, cut by the end of the memory, zeros behind it */
+                unsigned char eff[12];
+                memset(eff, 0, sizeof eff);
+                memcpy(eff, WSTR[si].s, WSTR[si].n);
+                const size_t effn = r < sizeof eff ? (size_t)r : sizeof eff;
+                const size_t put = WSTR[si].n < r ? WSTR[si].n : (size_t)r;
+                memcpy(data + off, WSTR[si].s, put);
+                struct refdec r64 = { 0 };
+                for (int t = 0; t < NTYPES; ++t) {
+                    const struct refdec rd = ref_dec(eff, effn, t);
+                    if (t == T_U64)
+                        r64 = rd;
+                    mc_log("%s: reference verdict %s count=%zu value=0x%llx", TN[t],
+                           rd.v == V_OK ? "ok" : rd.v == V_ILLEGAL ? "illegal" : "truncated", rd.count,
+                           (unsigned long long)rd.value);
+                    struct dobs o[3];
+                    run_decoders(t, data, (size_t)size, (size_t)off, o);
+                    (void)judge_string(t, &rd, o);
+                }
+                memset(data + off, 0, put);
+                const bool big = r >= (1ull << 31) || off >= (1ull << 31);
+                mc_end(size > 255, r64.v == V_TRUNC ? (big ? "window-cutoff-big" : "window-cutoff")
+                           : r64.v == V_ILLEGAL     ? (big ? "window-illegal-big" : "window-illegal")
+                           : big                    ? "window-ok-big"
+                                                    : "window-ok");
+            }
+    /* encoders: read cursor at `offset`, fill mark there or at `offset + 3`, `room` octets behind the fill mark */
+    uint64_t room[128];
+    const size_t nroom = boundary_family(room, true);
+    for (int t = 0; t < NTYPES; ++t) {
+        const uint64_t *dv = t < T_U64 ? DV32 : DV64;
+        for (size_t oi = 0; oi < noff; ++oi)
+            for (unsigned gap = 0; gap <= 3; gap += 3)
+                for (size_t ri = 0; ri < nroom; ++ri)
+                    for (unsigned vi = 0; vi < 3; ++vi) {
+                        const uint64_t off = WOFF[oi], used = off + gap, size = used + room[ri];
+                        if (!mc_case("window %s encode 0x%llx on size=%llu used=%llu offset=%llu (%llu octets free), then decode",
+                                     TN[t], (unsigned long long)dv[vi], (unsigned long long)size, (unsigned long long)used,
+                                     (unsigned long long)off, (unsigned long long)room[ri]))
+                            continue;
+                        unsigned char *data = win_end - size;
+                        /* stale content between cursor and fill mark */
+                        for (unsigned g = 0; g < gap; ++g)
+                            data[off + g] = (unsigned char)(0x91u + g);
+                        ByteBuffer b;
+                        if (byte_buffer_set(&b, data, (size_t)size, (size_t)used, (size_t)off) < 0)
+                            mc_broken("byte_buffer_set refused");
+                        bool at_cursor = false;
+                        const int e = encode_step(t, &b, data, (size_t)size, dv[vi], &at_cursor);
+                        if (e == 1 && at_cursor)
+                            (void)decode_step(t, &b, data, (size_t)size);
+                        /* back to all zero: everything an encoder of either reading may have written */
+                        const uint64_t span = gap + 10u < size - off ? gap + 10u : size - off;
+                        memset(data + off, 0, (size_t)span);
+                        const bool big = room[ri] >= (1ull << 31) || off >= (1ull << 31);
+                        mc_end(size > 255, e < 0 ? "window-encode-failed" : e == 0 ? "window-encode-refused"
+                                   : big                                          ? "window-encoded-big"
+                                                                                  : "window-encoded");
+                    }
+    }
+}
+
 /* ---- anchors: the repository's own tables (test/t-varint.c) -------------------------- */
 
 static void
@@ -845,14 +1681,36 @@ main(int argc, char **argv)
             sweep32(c << 12, 1ull << 12);
     }
 
-    char bound[600];
+    /* 4. descriptors that are not fresh */
+    family_dirty();
+    family_histories();
+
+    /* 5. large windows */
+    window_init();
+    family_windows();
+
+    /* 6. drivers that do not simply serve */
+    family_sinkscripts();
+    family_srcscripts();
+
+    char bound[1800];
     snprintf(bound, sizeof bound,
              "32 bit: %s, plus the structured set (x<<s and ~(x<<s) for x<256, 2^k and 2^k+-1, one/two/all septet lanes "
              "over {00,01,40,7f}, octet lanes over {00,01,7f,80,ff}); 64 bit: the structured set%s; decoder input: "
-             "every string of length 1..%zu over {00,01,7f,80,81,ff}%s, and of length 0..5 behind 1 and 3 consumed octets",
+             "every string of length 1..%zu over {00,01,7f,80,81,ff}%s, and of length 0..5 behind 1 and 3 consumed octets; "
+             "reuse: one encode of {5,1234,max} on every (size,used,offset) for size in {max-1,max,max+1,max+2,2max,2max+3}, "
+             "every history of 1..%u operations over {enc1,enc2,encmax,dec,repeat,seek-end,reset} on a fresh descriptor of "
+             "size {max,2max,3max+1}; windows: 10 strings x 16 offsets (0,1,3, 2^7,2^8,2^16 and neighbours, 2^31-1..2^31+1, "
+             "2^32-1..2^32+5) x 96 lengths behind the offset (1..11, 2^p-2..2^p+11 for p in 7,8,15,16,31,32, 3*2^30), "
+             "encoders on the same offsets x fill mark at/3 behind the offset x the same 96 free lengths; scripts: source "
+             "decoders (octet and chunk source, 13/14 strings per width) and sink encoders (octet sink, chunk sink taking all/1/2/3 "
+             "per call, 8/9 values per width) with every placement of up to %u answers from {0,-EINTR,-EAGAIN,-EIO} among the "
+             "driver calls of one varint, up to %u among those of every stream of 2 and 3 varints over {1 octet, 2 octets, "
+             "maximum} through one Source/Sink",
              mc_thorough() ? "all 2^32 values" : "all values < 2^17",
              mc_thorough() ? " plus odd*2^s and complements for every odd < 2^16 and every s" : "", maxlen,
-             mc_thorough() ? "" : " and of length 9..11 over {00,7f,80}");
+             mc_thorough() ? "" : " and of length 9..11 over {00,7f,80}", mc_thorough() ? 4u : 3u, mc_thorough() ? 3u : 2u,
+             mc_thorough() ? 2u : 1u);
     mc_finish(true, bound);
     return 0;
 }
